@@ -50,7 +50,9 @@ def exec_scenario(sc, timeout=600):
         json.dump(sc, f)
         p = f.name
     try:
-        doc, _ = run_json([BIN, MODE["exec"], "--scenario", p, "--hash-seed", str(sc["seed"])], env=_env(), timeout=timeout)
+        # a scenario file says itself which mode it belongs to (C04 has parts in both)
+        mode = "pool-exec" if sc.get("kind") == "pool" else ("exec" if "tree" in sc else MODE["exec"])
+        doc, _ = run_json([BIN, mode, "--scenario", p, "--hash-seed", str(sc["seed"])], env=_env(), timeout=timeout)
     finally:
         os.unlink(p)
     return doc
